@@ -36,8 +36,8 @@ def sessOf? : Term → Option SessDown
   | .atom "fsm" => some .fsm
   | .atom "admin" => some .admin
   | .atom "io" => some .io
-  | .list [.atom "remote", m] => some (.remote (contentOf m))
-  | .list [.atom "local", m] => some (.loc (contentOf m))
+  | .list [.atom "remote", m] => (contentOf? m).map .remote
+  | .list [.atom "local", m] => (contentOf? m).map .loc
   | _ => none
 
 def downEmbOf? : Term → Option (Option Bytes)
@@ -88,7 +88,7 @@ def itemOf? (t : Term) : Option Item :=
         | .list [.atom "wd", p, n] => do pure (false, (← natLt? 4294967296 p), (← asBytes? n))
         | _ => none
       pure (.ev (.live (← asBool? ap) (← natLt? 4294967296 lrid) (← natLt? 4294967296 lasn) (← natLt? 4294967296 rasn)
-        (← natLt? 4294967296 rrid) (← acts.mapM act?) (← asBool? late) (contentOf so) (contentOf ro)
+        (← natLt? 4294967296 rrid) (← acts.mapM act?) (← asBool? late) (← contentOf? so) (← contentOf? ro)
         (← es.mapM embOf?)))
   | .list [.atom "ev-locup", rid, asn, e] => do
       pure (.ev (.locUp (← bytesLen? 4 rid) (← natLt? 4294967296 asn) (← embOf? e)))
